@@ -67,11 +67,13 @@ structure Tables where
   rel : Std.HashMap String (Option Bool) := {}
   range : Std.HashMap String RangeAns := {}
   norm : Std.HashMap String E := {}
+  corner : Std.HashMap String (Option Bool) := {}
   doit : Std.HashMap String E := {}
   expand : Std.HashMap String E := {}
   diff : Std.HashMap String E := {}
 
 def relKey (f : E) (ge : Bool) : String := key f ++ (if ge then "|G" else "|L")
+def cornerKey (f : E) (lt hi : Bool) : String := key f ++ (if lt then "|lt" else "|gt") ++ (if hi then "|hi" else "|lo")
 def symKey (f : E) (s : Nat) : String := key f ++ "|" ++ toString s
 
 def rangeAns? (j : Json) : Option RangeAns := do
@@ -101,6 +103,14 @@ def addEntry (t : Tables) (j : Json) : Option Tables := do
     let s ← (field? j "s").bind getNat?
     pure { t with range := t.range.insert (symKey f s) (← rangeAns? a) }
   | "norm" => do pure { t with norm := t.norm.insert (key f) (← ofJ a) }
+  | "corner" => do
+    let lt ← (field? j "lt").bind getBool?
+    let hi ← (field? j "hi").bind getBool?
+    let ans : Option Bool ← (match a with
+      | .null => some none
+      | .bool b => some (some b)
+      | _ => none)
+    pure { t with corner := t.corner.insert (cornerKey f lt hi) ans }
   | "doit" => do pure { t with doit := t.doit.insert (key f) (← ofJ a) }
   | "expand" => do pure { t with expand := t.expand.insert (key f) (← ofJ a) }
   | "diff" => do
@@ -116,6 +126,7 @@ def oracleOf (t : Tables) : Oracle where
   rel f ge := t.rel.get? (relKey f ge)
   range f s := t.range.get? (symKey f s)
   norm f := t.norm.get? (key f)
+  corner f lt hi := t.corner.get? (cornerKey f lt hi)
   doit f := t.doit.get? (key f)
   expand f := t.expand.get? (key f)
   diff f s := t.diff.get? (symKey f s)
@@ -137,15 +148,17 @@ def queryJ : Query → Json
   | .rel f ge => Json.mkObj [("k", Json.str "rel"), ("f", toJ f), ("ge", Json.bool ge)]
   | .range f s => Json.mkObj [("k", Json.str "range"), ("f", toJ f), ("s", ofNat s)]
   | .norm f => Json.mkObj [("k", Json.str "norm"), ("f", toJ f)]
+  | .corner f lt hi => Json.mkObj [("k", Json.str "corner"), ("f", toJ f), ("lt", Json.bool lt), ("hi", Json.bool hi)]
   | .doit f => Json.mkObj [("k", Json.str "doit"), ("f", toJ f)]
   | .expand f => Json.mkObj [("k", Json.str "expand"), ("f", toJ f)]
   | .diff f s => Json.mkObj [("k", Json.str "diff"), ("f", toJ f), ("s", ofNat s)]
 
 def cfg? (req : Json) : Option Cfg :=
   match field? req "cfg" with
-  | none => some Cfg.asIs
+  | none => some Cfg.repaired
   | some c => do
-    pure ⟨← (field? c "tdnczEarly").bind getBool?, ← (field? c "heavIntCrash").bind getBool?⟩
+    pure ⟨← (field? c "tdnczEarly").bind getBool?, ← (field? c "heavIntCrash").bind getBool?,
+          ← (field? c "heavPerAtom").bind getBool?, ← (field? c "relCorner").bind getBool?⟩
 
 def resJ : M CR → Json
   | .ok v => Json.mkObj [("verdict", crJ v)]
@@ -193,8 +206,8 @@ def optPt : Option (List Int) → Json
   {"op":"scan","f":E,"box":[[lo,hi],…]}            → {"n","sum":[p,q],"min":[p,q],"argmin":[…],"max":[p,q],"argmax":[…]}
   {"op":"mono","f":E,"box":…, "s":i}               → {"pairs":n,"inc":pt|null,"dec":pt|null}
   {"op":"eval","f":E,"pt":[…]}                      → [p,q]
-  {"op":"verdict","f":E,"box":…,"tdncz":b,"fuel":n,"table":[…],"cfg":{"tdnczEarly":b,"heavIntCrash":b}?}
-                                                    → {"verdict":…} | {"need":query} | {"exc":msg}   (cfg default: as-is)
+  {"op":"verdict","f":E,"box":…,"tdncz":b,"fuel":n,"table":[…],"cfg":{"tdnczEarly":b,"heavIntCrash":b,"heavPerAtom":b,"relCorner":b}?}
+                                                    → {"verdict":…} | {"need":query} | {"exc":msg}   (cfg default: repaired)
   {"op":"dverdict","f":E,"box":…,"s":i,"fuel":n,"table":[…]}      → same
   {"op":"or","a":CR,"b":CR}                         → CR
   {"op":"rewrite","f":E}                            → {"strip":E,"hasHeav":b,"h1":E,"h0":E,"choose":i|null}
